@@ -340,51 +340,107 @@ func runRepros(c *vh.Ctx) {
 		if !c.Mine(i) {
 			continue
 		}
-		c.Case("krepro/"+rp.name, func() {
-			defer stratumK.use()()
-			b := newKscript()
-			rp.build(b)
-			fmt.Printf("REPRO %s: %s\n", rp.name, rp.what)
-			for bi, l := range histText(b.batches, len(b.batches)) {
-				_ = bi
-				fmt.Println("REPRO   " + l)
-			}
-			debounce := 2 * time.Millisecond
-			if d, ok := reproDebounce[rp.name]; ok {
-				debounce = d
-			}
-			w := newWorldK(c, debounce, "k", b.initial)
-			defer w.close()
-			w.hist = b.batches
-			w.caseName = "krepro/" + rp.name
-			if !quiesce(w.a) {
-				c.Inconclusive("initial sync did not quiesce")
-				return
-			}
-			all, allPidx := w.clients()
-			for bi, batch := range b.batches {
-				w.applyBatch(w.a, batch)
-				w.applied = bi + 1
-				if !quiesce(w.a) {
-					c.Inconclusive("batch did not quiesce")
-					return
-				}
-				if b.noCheck[bi] {
-					continue
-				}
-				info := fmt.Sprintf("checkpoint after batch %d of krepro/%s (%s)", bi, rp.name, strings.SplitN(rp.what, ":", 2)[0])
-				saved := assertWarming
-				assertWarming = true // scripted histories always assert
-				w.warmingCheck("c01", "long-lived", all, nil)
-				assertWarming = saved
-				if _, ok := w.checkAgainstFresh(w.a, all, allPidx, w.pfx("c01"), info); !ok {
-					return
-				}
-				w.kindsCP = map[string]bool{}
-				w.touchedUnexported = false
-			}
-			c.Nontrivial("krepro/" + rp.name)
-			c.Count("k_nontrivial", 1)
-		})
+		c.Case("krepro/"+rp.name, func() { runScript(c, "krepro/"+rp.name, rp) })
+	}
+}
+
+// kProbes are directed histories that are part of stratum K in every C01 run (cases "kprobe/<name>"): each isolates one
+// dependency that the generated histories reach only now and then at the quick tier (a repair by the next event of the same
+// hostname usually follows within the batch), so that the mutants of the brief are caught at every seed. They go through
+// exactly the same world, clients and oracle as the generated histories.
+var kProbes = []krepro{
+	{"slices-deleted-after-selector-change", "an EndpointSlice is deleted with nothing else happening to its service or pods (the Service's selector changed one batch earlier): the endpoints must go", func(b *kscript) {
+		svc := b.svc("ns1", "e", false, "10.96.1.1", lbl("app", "we-a"), nil, sport("http", 80, 8080), sport("tcp", 9000, 9000))
+		p0 := b.pod("ns1", "p0", lbl("app", "we-a", "version", "v1"), "sa-a", "10.40.0.1", true)
+		p1 := b.pod("ns1", "p1", lbl("app", "we-a", "version", "v2", "security.istio.io/tlsMode", "istio"), "sa-b", "10.40.0.2", true)
+		sl0, sl1 := b.slice(svc, 0, kep{p0, true, true, false}), b.slice(svc, 1, kep{p1, true, true, false})
+		b.init(svc, p0, p1, sl0, sl1)
+		svc2 := svc.DeepCopy()
+		svc2.Spec.Selector = lbl("app", "nobody")
+		b.add(b.k("update", svc2, "selector"))
+		b.flushUnsettled()
+		b.add(b.k("delete", sl0, "removed"))
+		b.flushUnsettled()
+		b.add(b.k("delete", sl1, "removed"))
+		b.flush()
+	}},
+	{"ready-pod-relabelled-within-selection", "a ready pod changes a label its Service does not select on (version): no EndpointSlice changes, yet endpoint metadata and subset membership must follow", func(b *kscript) {
+		svc := b.svc("ns1", "e", false, "10.96.1.1", lbl("app", "we-a"), nil, sport("http", 80, 8080))
+		p0 := b.pod("ns1", "p0", lbl("app", "we-a", "version", "v1"), "sa-a", "10.40.0.1", true)
+		p1 := b.pod("ns1", "p1", lbl("app", "we-a", "version", "v1"), "sa-a", "10.40.0.2", true)
+		b.init(svc, p0, p1, b.slice(svc, 0, kep{p0, true, true, false}, kep{p1, true, true, false}))
+		b.add(b.cfg("create", gvk.DestinationRule, "ns1", "dr-0", &networking.DestinationRule{Host: "e.ns1.svc.cluster.local",
+			Subsets: []*networking.Subset{{Name: "v1", Labels: lbl("version", "v1")}, {Name: "v2", Labels: lbl("version", "v2")}}}))
+		b.flush()
+		p0.Labels = lbl("app", "we-a", "version", "v2")
+		b.add(b.k("update", p0, "relabel"))
+		b.flush()
+		p1.Labels = lbl("app", "we-a", "version", "v2", "security.istio.io/tlsMode", "istio")
+		b.add(b.k("update", p1, "relabel"))
+		b.flush()
+	}},
+}
+
+func runProbes(c *vh.Ctx) {
+	for i, rp := range kProbes {
+		if !c.Mine(i) {
+			continue
+		}
+		c.Case("kprobe/"+rp.name, func() { runScript(c, "kprobe/"+rp.name, rp) })
+	}
+}
+
+// runScript drives one scripted history through the world, clients and C01 oracle of stratum K.
+func runScript(c *vh.Ctx, label string, rp krepro) {
+	defer stratumK.use()()
+	b := newKscript()
+	rp.build(b)
+	fmt.Printf("SCRIPT %s: %s\n", label, rp.what)
+	for _, l := range histText(b.batches, len(b.batches)) {
+		fmt.Println("SCRIPT   " + l)
+	}
+	debounce := 2 * time.Millisecond
+	if d, ok := reproDebounce[rp.name]; ok {
+		debounce = d
+	}
+	w := newWorldK(c, debounce, "k", b.initial)
+	defer w.close()
+	w.hist = b.batches
+	w.caseName = label
+	if !quiesce(w.a) {
+		c.Inconclusive("initial sync did not quiesce")
+		return
+	}
+	all, allPidx := w.clients()
+	nCheckpoints := 0
+	for bi, batch := range b.batches {
+		w.applyBatch(w.a, batch)
+		w.applied = bi + 1
+		if !quiesce(w.a) {
+			c.Inconclusive("batch did not quiesce")
+			return
+		}
+		if b.noCheck[bi] {
+			continue
+		}
+		info := fmt.Sprintf("checkpoint after batch %d of %s (%s)", bi, label, strings.SplitN(rp.what, ":", 2)[0])
+		saved := assertWarming
+		assertWarming = true // scripted histories always assert
+		w.warmingCheck("c01", "long-lived", all, nil)
+		assertWarming = saved
+		n, ok := w.checkAgainstFresh(w.a, all, allPidx, w.pfx("c01"), info)
+		if !ok {
+			return
+		}
+		c.Count("resources_compared", n)
+		c.Count("checkpoints", 1)
+		c.Count("k_checkpoints", 1)
+		if nCheckpoints++; nCheckpoints > 1 {
+			c.AddEvaluations(1)
+		}
+		c.Nontrivial(label + fmt.Sprint(bi))
+		c.Count("k_nontrivial", 1)
+		w.kindsCP = map[string]bool{}
+		w.touchedUnexported = false
 	}
 }
